@@ -1,11 +1,13 @@
-\* no deviations: Confined is EXPECTED to fail while the layouts join the
-\* parts unchecked (the design admits escape); it must pass once '.', '..'
-\* and empty components are rejected
+\* Ideal: with the candidate repair (a name with an empty, '.', '..' or NUL
+\* part is refused before a path is built) Confined holds with no deviation
 SPECIFICATION Spec
 CONSTANTS
-  MaxLen = 4
+  MaxLen = 5
   ExtraNames <- DeepNames
+  RejectSpecialParts = TRUE
   Deviations = {}
 INVARIANT TypeOK
 INVARIANT Confined
+INVARIANT PPOneComponent
+INVARIANT AllowedAreZones
 CHECK_DEADLOCK FALSE
